@@ -239,7 +239,7 @@ impl Property for C15 {
 		120
 	}
 	fn cases(&self, tier: Tier) -> u64 {
-		tier.pick(500_000, 5_000_000)
+		tier.pick(1_500_000, 10_000_000)
 	}
 
 	fn run(&self, tape: &[u32], ctx: &mut Ctx) -> CaseResult {
